@@ -33,6 +33,9 @@ def legacyRecords : Int := 1
 /-- constant defaultRecords -/
 def defaultRecords : Int := 2
 
+/-- constant maximumRecordOverhead -/
+def maximumRecordOverhead : Int := 36
+
 /-- generated from length_field.go (*lengthField).check -/
 def lengthFieldCheck (cur : Int) (start : Int) (len : Int) (eInvalid : Int) (nilErr : Int) : Int :=
   if ((Go.toI32 (Go.sub64 (Go.sub64 cur start) 4)) ≠ len) then
@@ -97,12 +100,12 @@ def compactArrayLength (n : Int) (err : Int) (nilErr : Int) (rem : Int) (off : I
         (length_v1, nilErr, off)
 
 /-- generated from real_decoder.go (*realDecoder).getArrayLength (fragment starting at `if tmp > rd.remaining()`) -/
-def arrayLengthGuard (tmp : Int) (rem : Int) (off : Int) (rawLen : Int) (maxU16 : Int) (eInsufficient : Int) (eInvalid : Int) (nilErr : Int) : Int × Int × Int :=
+def arrayLengthGuard (tmp : Int) (rem : Int) (off : Int) (rawLen : Int) (eInsufficient : Int) (eInvalid : Int) (nilErr : Int) : Int × Int × Int :=
   if (tmp > rem) then
     let off_v1 : Int := rawLen
     ((-1), eInsufficient, off_v1)
   else
-    if ((tmp > (Go.mul64 2 maxU16)) ∨ (tmp < (-1))) then
+    if ((tmp > (2 * 65535)) ∨ (tmp < (-1))) then
       ((-1), eInvalid, off)
     else
       (tmp, nilErr, off)
